@@ -244,4 +244,11 @@ def records (b : Blk) : Except RErr Records :=
           mms := b.mms.map (resolveM b) }
   else .error .other
 
+/-- everything the application can observe of one block, given its raw value: the block object and the three record streams,
+    or the class of the exception -/
+def blockOutcome (rates : List Nat) (v : Val) : Except RErr (RdBlk × Records) :=
+  match ofVal rates v with
+  | .error e => .error e
+  | .ok rb => match records rb.blk with | .error e => .error e | .ok r => .ok (rb, r)
+
 end CdnsVerif.Model.ReadBlock
